@@ -758,14 +758,18 @@ def r15_18(ctx):
         if sb in b.cleanup or b.blocks[sb]["t"]["k"] != "switch":
             continue
         term, outs = b.switch_info(sb)
-        if term[0] == "bin" and term[1] in ("Eq", "Ne") and mir.has_field(term, "profile") and 0x1000 in (mir.int_value(term[2]), mir.int_value(term[3])):
-            found = (sb, term)
+        if term[0] == "bin" and term[1] in ("Eq", "Ne") and mir.has_field(term, "profile"):
+            c = mir.int_value(term[3]) if isinstance(mir.int_value(term[3]), int) else mir.int_value(term[2])
+            if isinstance(c, int) and c != 0xBEDE:
+                found = (sb, term, c)
     if found is None:
         raise core.CheckerError("R15.18: the two-byte profile test was not found in get_extension")
-    sb, term = found
-    other = term[2] if mir.int_value(term[3]) == 0x1000 else term[3]
+    sb, term, c = found
+    other = term[2] if isinstance(mir.int_value(term[3]), int) else term[3]
     masked = other[0] == "bin" and other[1] == "BitAnd" and 0xFFF0 in (mir.int_value(other[2]), mir.int_value(other[3]))
-    if masked:
+    if c != 0x1000:
+        r.violate(b.name, "two-byte-profile:value", b.where(sb), "the two-byte extension form is looked for under profile %#06x, RFC 8285 4.3 says 0x100 in the upper 12 bits (0x1000..0x100F)" % c)
+    elif masked:
         r.ok({"site": b.where(sb), "test": mir.show(term, 80)})
     else:
         r.violate(b.name, "two-byte-profile:exact", b.where(sb),
